@@ -557,6 +557,8 @@ func (b *Built) bindOpts(v reflect.Value, opts []*Opt, where string) {
 				}))
 			case TFuncS:
 				f.Set(reflect.ValueOf(func(s string) { *log = append(*log, s) }))
+			case TFuncVar:
+				f.Set(reflect.ValueOf(func(s ...string) { *log = append(*log, strings.Join(s, "\x1f")) }))
 			case TFuncIE:
 				f.Set(reflect.ValueOf(func(i int) error {
 					*log = append(*log, strconv.Itoa(i))
